@@ -101,3 +101,61 @@ def gen_plain(rng, maxlen=600):
     else:
         a = [0] * n if rng.random() < 0.5 else [rng.randrange(256) for _ in range(n)]
     return a
+
+
+def fast_matches(data, min_len=8):
+    """non-overlapping matches found with a hash of 4-byte windows (one pass, LZ4-fast style): [(pos, len, dist)], ascending; no match
+    starts within the last 12 bytes nor covers the last 5"""
+    n, last, out, i = len(data), {}, [], 0
+    while i < n - 12:
+        key = bytes(data[i:i + 4])
+        j = last.get(key)
+        last[key] = i
+        if j is not None and i - j <= 65535:
+            l = 4
+            while i + l < n - 5 and data[j + l] == data[i + l]:
+                l += 1
+            if l >= min_len:
+                out.append((i, l, i - j)); i += l; continue
+        i += 1
+    return out
+
+
+def encode_matches(data, matches):
+    """the block that uses exactly these matches (ascending, non-overlapping) and literals elsewhere"""
+    out, lit = [], 0
+    for pos, l, d in matches:
+        ll = pos - lit
+        out.append((min(ll, 15) << 4) | min(l - 4, 15))
+        if ll >= 15: emit_len(ll - 15, out)
+        out.extend(data[lit:pos])
+        out.append(d & 255); out.append(d >> 8)
+        if l - 4 >= 15: emit_len(l - 4 - 15, out)
+        lit = pos + l
+    ll = len(data) - lit
+    out.append(min(ll, 15) << 4)
+    if ll >= 15: emit_len(ll - 15, out)
+    out.extend(data[lit:])
+    return out
+
+
+def encode_barely(data, delta, rng):
+    """a valid block exactly `delta` bytes shorter than the data (delta small): as few matches as it takes, the last one shortened.
+    None when the data does not compress that far."""
+    ms = fast_matches(data)
+    rng.shuffle(ms)
+    chosen = []
+    for m in ms:
+        chosen = sorted(chosen + [m])
+        size = len(encode_matches(data, chosen))
+        if size <= len(data) - delta:
+            over = (len(data) - delta) - size                 # bytes to give back
+            pos, l, d = m
+            for cut in range(over, over + 4):                  # shortening a match by c gives c literals back (length bytes may shift by one)
+                if l - cut >= 4:
+                    trial = sorted([x for x in chosen if x != m] + [(pos, l - cut, d)])
+                    blk = encode_matches(data, trial)
+                    if len(blk) == len(data) - delta:
+                        return blk
+            chosen = [x for x in chosen if x != m]             # try another last match
+    return None
